@@ -28,6 +28,32 @@ class Tok:
         return self.t.setdefault(name, len(self.t))
 
 
+class Tok2:
+    """read-only view of a token table (unknown names get 7777)"""
+
+    def __init__(self, tok):
+        self.tok = tok
+
+    def __call__(self, name):
+        return self.tok.t.get(name, 7777)
+
+
+def literal_prepass_ok(d):
+    """python_literal.load_file expands the index rows itself before fromdict validates the dict; it raises on its own
+    (KeyError / TypeError / IndexError) for some corruptions - those dicts are compared through fromdict only."""
+    try:
+        objects, properties, context = d['objects'], d['properties'], d['context']
+        m = len(list(properties))
+        list(objects)
+        for row in context:
+            for i in row:
+                if isinstance(i, bool) or not isinstance(i, int) or not (0 <= i < m):
+                    return False
+        return True
+    except Exception:  # noqa: BLE001
+        return False
+
+
 def pv(v, tok):
     if isinstance(v, bool):
         return f'VBool {"true" if v else "false"}'
@@ -90,6 +116,15 @@ def dict_case(d, ignore, require, note):
     term_in = (f'InDict (mkDict {opt(d.get("objects"), names)} {opt(d.get("properties"), names)} '
                f'{opt(d.get("context"), ctxrows)} {lat}) {"true" if ignore else "false"} {"true" if require else "false"}')
     out, err = outcome(lambda: concepts.Context.fromdict(copy.deepcopy(d), ignore_lattice=ignore, require_lattice=require), tok)
+    if not ignore and not require and literal_prepass_ok(d):
+        # the python-literal entry points hand the evaluated dict to fromdict: same outcome expected
+        text = repr(d)
+        for name, fn in (('fromstring(python-literal)', lambda: concepts.Context.fromstring(text, frmat='python-literal')),
+                         ('make_context(python-literal)', lambda: concepts.make_context(text, frmat='python-literal'))):
+            out2, err2 = outcome(fn, Tok2(tok))
+            if coq(out2) != coq(out):
+                out = (8,) + tuple(out[1:])
+                err = f'{name} gives {out2[0]} ({err2}) where fromdict gives {err}'
     term = f'({term_in}, {coq(out)})'
     return Case(term, {'kind': 'fromdict', 'dict': repr(d), 'ignore_lattice': ignore, 'require_lattice': require, 'note': note},
                 note != 'valid', [{'observed_tag': out[0], 'error': err}],
